@@ -982,6 +982,147 @@ theorem setNodeMarkup_inside (S : Schema) (st st' : PSt) (pos : Nat) (ty : Optio
         simp only [Slice.size, fsize]
         omega
 
+/-! ## `set_block_type` over a range inside (model PM/TypePlan.lean, whole-walk spec `setBlockType_spec`, Props/C13.lean) -/
+
+/-- the run only ever appends to the rewritten prefix (as `SbtRun.grows`, Props/C13.lean, which this file
+    does not import) -/
+theorem sbtRun_grows {S : Schema} {ty : TypeId} {attrs : Attrs} {L0 : List Tok} {vs : List NV}
+    {skip skip' : Nat} {X X' : List Tok} (h : SbtRun S ty attrs L0 vs skip X skip' X') :
+    ∃ Y, X' = X ++ Y := by
+  induction h with
+  | done => exact ⟨[], by simp⟩
+  | pass _ _ _ _ _ _ _ _ ih => exact ih
+  | conv v _ sk _ _ _ nn _ _ _ _ _ _ ih =>
+    obtain ⟨Y, hY⟩ := ih
+    exact ⟨(L0.drop sk).take (v.pos - sk) ++ (convToks S ty nn v.node.kids ++ Y),
+      by rw [hY]; simp only [List.append_assoc]⟩
+
+/-- the whole walk of `set_block_type` in terms of `SbtRun` (the statement of `setBlockType_spec`,
+    Props/C13.lean, re-derived from Proofs/TypePlan.lean to keep this file's imports small) -/
+theorem setBlockType_run (S : Schema) (st st' : PSt) (f t : Nat) (ty : TypeId) (attrs : Attrs)
+    (hfit : st.fits = []) (hms : st.tr.maps.length = st.tr.steps.length)
+    (hnorm : fnorm st.tr.doc.kids = true)
+    (hty : (S.nodeType ty).isLeaf = false)
+    (hblocks : ∀ v ∈ S.docVisits st.tr.doc f t, S.isTextblockN v.node = true → v.node.isLeaf = false)
+    (h : st.setBlockType S f t ty attrs = .ok st') :
+    ∃ skip' X', SbtRun S ty attrs (ftoks st.tr.doc.kids) (S.docVisits st.tr.doc f t) 0 [] skip' X' ∧
+      ftoks st'.tr.doc.kids = X' ++ (ftoks st.tr.doc.kids).drop skip' := by
+  unfold PSt.setBlockType at h
+  simp only at h
+  split at h
+  · simp at h
+  · split at h
+    · simp at h
+    · rename_i st2 skip2 hfold
+      split at h
+      · simp at h
+      · simp only [Except.ok.injEq] at h
+        subst h
+        have hI : SbtInv (ftoks st.tr.doc.kids) st.tr.steps.length st 0 [] :=
+          { toks := by simp
+            maps := by
+              intro p _
+              rw [List.drop_of_length_le (by omega)]
+              simp
+            fits := hfit
+            mf_le := by omega
+            skip_le := Nat.zero_le _
+            norm := hnorm }
+        obtain ⟨X', hr, hI'⟩ := sbt_fold S ty attrs st.tr.steps.length (ftoks st.tr.doc.kids) hty
+          (S.docVisits st.tr.doc f t) st 0 [] st2 skip2
+          (fun v hv => by
+            obtain ⟨h1, h2⟩ := docVisits_window S st.tr.doc f t v hv
+            exact ⟨h1, h2 hnorm, hblocks v hv⟩)
+          hI hfold
+        exact ⟨skip2, X', hr, hI'.toks⟩
+
+/-- the run of `set_block_type` never moves `skip` past the end of the last convertible block -/
+theorem sbtRun_skip_le {S : Schema} {ty : TypeId} {attrs : Attrs} {L0 : List Tok} {vs : List NV}
+    {skip skip' : Nat} {X X' : List Tok} (h : SbtRun S ty attrs L0 vs skip X skip' X') (B : Nat)
+    (hv : ∀ v ∈ vs, S.isTextblockN v.node = true → v.pos + v.node.size ≤ B) (hs : skip ≤ B) :
+    skip' ≤ B := by
+  induction h with
+  | done => exact hs
+  | pass v vs _ _ _ _ _ _ ih => exact ih (fun w hw => hv w (by simp [hw])) hs
+  | conv v vs _ _ _ _ _ _ htb _ _ _ _ ih =>
+    exact ih (fun w hw => hv w (by simp [hw])) (hv v (by simp) htb)
+
+/-- the run of `set_block_type` copies everything in front of the first convertible block -/
+theorem sbtRun_prefix {S : Schema} {ty : TypeId} {attrs : Attrs} {L0 : List Tok} {vs : List NV}
+    {skip skip' : Nat} {X X' : List Tok} (h : SbtRun S ty attrs L0 vs skip X skip' X') (A : Nat)
+    (hv : ∀ v ∈ vs, S.isTextblockN v.node = true → A ≤ v.pos) (hs : skip ≤ A) :
+    ∃ R, X' ++ L0.drop skip' = X ++ (L0.drop skip).take (A - skip) ++ R := by
+  induction h with
+  | done sk X0 =>
+    exact ⟨(L0.drop sk).drop (A - sk), by rw [List.append_assoc, List.take_append_drop]⟩
+  | pass v vs _ _ _ _ _ _ ih => exact ih (fun w hw => hv w (by simp [hw])) hs
+  | conv v vs sk X0 sk' X1 nn hsk htb _ _ _ hrun _ =>
+    obtain ⟨Y, hY⟩ := sbtRun_grows hrun
+    have hA := hv v (by simp) htb
+    have e : (L0.drop sk).take (v.pos - sk) =
+        (L0.drop sk).take (A - sk) ++ ((L0.drop sk).drop (A - sk)).take (v.pos - A) := by
+      conv => lhs; rw [show v.pos - sk = (A - sk) + (v.pos - A) by omega, List.take_add]
+    refine ⟨((L0.drop sk).drop (A - sk)).take (v.pos - A) ++ convToks S ty nn v.node.kids ++ Y ++ L0.drop sk', ?_⟩
+    rw [hY, e]
+    simp only [List.append_assoc]
+
+/-- **`set_block_type` over a range inside — proved part.**  Hypotheses of `setBlockType_spec` plus
+    `hvis`: every textblock that `nodes_between(f, t)` visits lies strictly between the open token (at
+    `a`) and the close token (at `b − 1`) of the node occupying `[a, b)`.  Then, whatever type and
+    attributes are requested, every token up to and including the open token and from the close token
+    on is unchanged.
+
+    Full statement (not proved here): for `a < f ≤ t < b` with `[a, b)` an isolating node that is not
+    itself a textblock, `hvis` holds — the visited nodes are the nodes overlapping `[f, t]`, i.e. the
+    ancestors of the isolating node (none a textblock, since they contain a block), the node itself,
+    and nodes inside its content.  Missing: the laminarity lemma "a visited node's window that overlaps
+    `[f, t] ⊆ (a, b − 1)` either contains `[a, b)` or lies inside `(a, b − 1)`" for `nodesBetweenP`.
+    `hvis` is decidable and is what the isolating node being a textblock would break: `set_block_type`
+    retypes an isolating *textblock* when its parent accepts the new type (`can_change_type` does not
+    look at `isolating`). -/
+theorem setBlockType_inside_partial (S : Schema) (st st' : PSt) (f t : Nat) (ty : TypeId) (attrs : Attrs)
+    (a b : Nat) (hab : a + 1 ≤ b - 1) (hb : b ≤ fsize st.tr.doc.kids)
+    (hfit : st.fits = []) (hms : st.tr.maps.length = st.tr.steps.length)
+    (hnorm : fnorm st.tr.doc.kids = true)
+    (hty : (S.nodeType ty).isLeaf = false)
+    (hblocks : ∀ v ∈ S.docVisits st.tr.doc f t, S.isTextblockN v.node = true → v.node.isLeaf = false)
+    (hvis : ∀ v ∈ S.docVisits st.tr.doc f t, S.isTextblockN v.node = true →
+      a < v.pos ∧ v.pos + v.node.size < b)
+    (h : st.setBlockType S f t ty attrs = .ok st') :
+    (ftoks st'.tr.doc.kids).take (a + 1) = (ftoks st.tr.doc.kids).take (a + 1) ∧
+    (ftoks st'.tr.doc.kids).drop (b - 1 + fsize st'.tr.doc.kids - fsize st.tr.doc.kids) =
+      (ftoks st.tr.doc.kids).drop (b - 1) ∧
+    fsize st.tr.doc.kids ≤ b - 1 + fsize st'.tr.doc.kids := by
+  obtain ⟨skip', X', hrun, hfinal⟩ :=
+    setBlockType_run S st st' f t ty attrs hfit hms hnorm hty hblocks h
+  have hL : (ftoks st.tr.doc.kids).length = fsize st.tr.doc.kids := ftoks_length _
+  have hL' : (ftoks st'.tr.doc.kids).length = fsize st'.tr.doc.kids := ftoks_length _
+  generalize ftoks st.tr.doc.kids = L at *
+  generalize ftoks st'.tr.doc.kids = L' at *
+  have hsk := sbtRun_skip_le hrun (b - 1) (fun v hv htb => by have := hvis v hv htb; omega) (by omega)
+  obtain ⟨R, hR⟩ := sbtRun_prefix hrun (a + 1) (fun v hv htb => by have := hvis v hv htb; omega) (by omega)
+  simp only [List.drop_zero, Nat.sub_zero, List.nil_append] at hR
+  -- the suffix: `L' = X' ++ L[skip' : b-1] ++ L[b-1 :]`
+  have hsuf : L' = (X' ++ (L.drop skip').take (b - 1 - skip')) ++ L.drop (b - 1) := by
+    rw [hfinal, List.append_assoc]
+    congr 1
+    have : L.drop (b - 1) = (L.drop skip').drop (b - 1 - skip') := by
+      rw [List.drop_drop]; congr 1; omega
+    rw [this, List.take_append_drop]
+  have hlen := congrArg List.length hsuf
+  simp only [List.length_append, List.length_drop] at hlen
+  refine ⟨?_, ?_, by omega⟩
+  · rw [hfinal, hR, List.take_append_of_le_length (by simp; omega), List.take_take]
+    congr 1
+    omega
+  · have : b - 1 + fsize st'.tr.doc.kids - fsize st.tr.doc.kids =
+        (X' ++ (L.drop skip').take (b - 1 - skip')).length := by
+      simp only [List.length_append]
+      omega
+    rw [this]
+    conv => lhs; rw [hsuf]
+    exact List.drop_left' rfl
+
 /-! ### concrete instances: an isolating node inside a blockquote (the shape of the seeded `block_range` change)
 
 `doc: block+`, `blockquote: block+`, `iso: block+` (isolating), `paragraph: text*`.
